@@ -202,7 +202,7 @@ def step (w : World) (line : String) : World × String :=
       | "k.dirty" => match parseHex a with
         | some b => ({ w with k := w.k.set! i (kOfRaw b) }, "ok") | none => bad
       | "p.script" => match parseList parseDelivery a with
-        | some ds => ({ w with ps := w.ps.set! i (w.ps[i]! ++ ds) }, "ok") | none => bad
+        | some ds => ({ w with ps := w.ps.set! i ds }, "ok") | none => bad
       | "p.init" => match parseHex a with
         | some c =>
           match Prng.init c (ent w i) with
